@@ -142,10 +142,18 @@ func ResolveStateConflictsV2(
 	// event, even if those related events are themselves not control events.
 	visited := make(map[string]struct{}, len(conflicted)+len(authEvents))
 	var fullControlSet func(event PDU) []PDU
+	// Events whose auth events are currently being walked: a reference back to one of
+	// them is a cycle (possible with forged event IDs) and must not be followed.
+	walking := make(map[string]struct{})
 	fullControlSet = func(event PDU) []PDU {
 		events := []PDU{event}
+		walking[event.EventID()] = struct{}{}
+		defer delete(walking, event.EventID())
 		for _, authEventID := range event.AuthEventIDs() {
 			if _, ok := visited[authEventID]; ok {
+				continue
+			}
+			if _, ok := walking[authEventID]; ok {
 				continue
 			}
 			if event, ok := r.conflictedEventMap[authEventID]; ok {
@@ -302,10 +310,18 @@ func ResolveStateConflictsV2New(
 	// event, even if those related events are themselves not control events.
 	visited := make(map[string]struct{}, len(conflicted)+len(authEvents))
 	var fullControlSet func(event PDU) []PDU
+	// Events whose auth events are currently being walked: a reference back to one of
+	// them is a cycle (possible with forged event IDs) and must not be followed.
+	walking := make(map[string]struct{})
 	fullControlSet = func(event PDU) []PDU {
 		events := []PDU{event}
+		walking[event.EventID()] = struct{}{}
+		defer delete(walking, event.EventID())
 		for _, authEventID := range event.AuthEventIDs() {
 			if _, ok := visited[authEventID]; ok {
+				continue
+			}
+			if _, ok := walking[authEventID]; ok {
 				continue
 			}
 			if event, ok := r.conflictedEventMap[authEventID]; ok {
@@ -704,14 +720,22 @@ func (r *stateResolverV2) createPowerLevelMainline() []PDU {
 	var mainline []PDU
 
 	// Define our iterator function.
+	// Events currently being walked: a reference back to one of them is a cycle
+	// (possible with forged event IDs) and must not be followed.
+	walking := make(map[string]struct{})
 	var iter func(event PDU)
 	iter = func(event PDU) {
 		// Append this event to the beginning of the mainline.
 		mainline = append(mainline, nil)
 		copy(mainline[1:], mainline)
 		mainline[0] = event
+		walking[event.EventID()] = struct{}{}
+		defer delete(walking, event.EventID())
 		// Work through all of the auth event IDs that this event refers to.
 		for _, authEventID := range event.AuthEventIDs() {
+			if _, ok := walking[authEventID]; ok {
+				continue
+			}
 			// Check that we actually have the auth event in our map - we need this so
 			// that we can look up the event type.
 			if authEvent, ok := r.authEventMap[authEventID]; ok {
@@ -751,13 +775,20 @@ func (r *stateResolverV2) getFirstPowerLevelMainlineEvent(event PDU) (
 		return pos, ok
 	}
 
-	// Define our iterator function.
+	// Define our iterator function. Events currently being walked are remembered so
+	// that a cycle of auth events (possible with forged event IDs) is not followed.
+	walking := make(map[string]struct{})
 	var iter func(event PDU)
 	iter = func(event PDU) {
+		walking[event.EventID()] = struct{}{}
+		defer delete(walking, event.EventID())
 		// In much the same way as we do in createPowerLevelMainline, we loop
 		// through the event's auth events, checking that it exists in our supplied
 		// auth event map and finding power level events.
 		for _, authEventID := range event.AuthEventIDs() {
+			if _, ok := walking[authEventID]; ok {
+				continue
+			}
 			// Check that we actually have the auth event in our map - we need this so
 			// that we can look up the event type.
 			authEvent, ok := r.authEventMap[authEventID]
